@@ -499,7 +499,7 @@ func init() {
 						one(off)
 					}
 				}},
-				{Name: "decorations", N: len(tr.small), Note: "trees with <=2 operator nodes x 3 leaf assignments x 6 decorations x (all gaps | each single gap)", Run: func(i int, r *core.Rec) {
+				{Name: "decorations", N: len(tr.small), Note: "trees with <=2 operator nodes x 3 leaf assignments x 6 decorations x (all gaps | each single gap | before the first / after the last token)", Run: func(i int, r *core.Rec) {
 					t := tr.small[i]
 					// three leaf assignments: starting at the literal 1, at the element name, at the resource type name
 					for _, off := range []int{0, 4, 6} {
@@ -558,6 +558,30 @@ func init() {
 									}
 									if o.ok && o.str != src {
 										r.Fail("string()-is-not-the-source", core.W{"source": src, "String()": o.str})
+									}
+								}
+								// the same decoration before the first and after the last token
+								if d.s != "" {
+									plain := c11Join(toks, func(int) string { return " " })
+									for _, edge := range []struct{ name, src string }{{"leading", d.s + plain}, {"trailing", plain + d.s}, {"both", d.s + plain + d.s}} {
+										o := c11Compile(r, edge.src, false)
+										r.State("decoration|" + d.name + "|edge-" + edge.name)
+										r.Nontrivial(edge.src, fmt.Sprint(o.ok))
+										w := core.W{"tree": c11Shape(t), "source": edge.src, "decoration": d.name, "mode": "edge-" + edge.name, "plain_outcome": base.desc, "decorated_outcome": o.desc}
+										if o.pan != nil {
+											r.Fail("decoration|"+d.name+"|"+o.pan.Key(), w)
+											continue
+										}
+										if o.ok != base.ok {
+											r.Fail(fmt.Sprintf("decoration|%s|edge-%s|changes-acceptance|plain=%v", d.name, edge.name, base.ok), w)
+											continue
+										}
+										if o.ok && o.ast != base.ast {
+											r.Fail(fmt.Sprintf("decoration|%s|edge-%s|ast-differs", d.name, edge.name), w)
+										}
+										if o.ok && o.str != edge.src {
+											r.Fail("string()-is-not-the-source|edge-"+edge.name, core.W{"source": edge.src, "String()": o.str})
+										}
 									}
 								}
 							}
